@@ -15,7 +15,7 @@ Definition digits (n : nat) : nat := digits_fuel n n.
 Definition tok_len (t : tok) : nat :=
   match t with
   | TChar _ | TCR | TLF => 1
-  | TCUU n | TCUB n => 3 + (if Nat.leb n 1 then 0 else digits n)
+  | TCUU n | TCUB n | TCUD n | TCUF n => 3 + (if Nat.leb n 1 then 0 else digits n)
   | TCUP r => 4 + digits r
   | THome | TELright | TEDbelow => 3
   | TELall | TEDall => 4
